@@ -21,7 +21,7 @@ import (
 
 func TestVerifC07Collection(t *testing.T) {
 	secs := verifh.Sections(func(r *verifh.Rng) []verifh.Section {
-		return verifc07.Gen(r, verifh.Scale(80, 2000), "collection.Cache.Take")
+		return verifc07.Gen(r, verifh.Scale(150, 2000), "collection.Cache.Take")
 	})
 	verifc07.WriteTrace(t, secs, func(cfg verifh.Cfg) verifc07.Target {
 		// objs caches (key n of cache i arrives as 100*i+n, used as key string n on cache i); opt: the constructor's
